@@ -70,13 +70,16 @@ PROPS = {
         "jobs": [
             {"test": "TestC11Enum", "quick": 1, "thorough": 1, "shards_thorough": 14, "timeout_quick": 1500},
             {"test": "TestC11Rand", "quick": 150, "thorough": 6000, "shards_thorough": 14},
+            {"test": "TestC11Adapters", "module": "binance", "pkg": "./checks", "quick": 1, "thorough": 1, "timeout_thorough": 1800},
         ],
         "rule": "Full stack (LoudScheme/SilentScheme; BLS, PS and a scripted backend; KeyGen and Sign) under virtual time. For each configuration a "
                 "fault-free reference run numbers every frame sent during the operation; then exhaustively: every peer P and every k (P cut off after "
                 "its k-th outgoing frame, k=0 = never starts), every single withheld frame, cancellation of a caller's context at 13 points, and (sign) "
                 "unusable stored share data with and without a deadline. TestC11Rand adds random configurations, schedules and faults. Oracle: every "
                 "call returns (error or success) by deadline+grace of virtual time, no panic during the run or a 3-minute virtual linger, successes agree "
-                "on public material. Non-trivial = the fault actually removed a frame / hit a running call. Distinct = configuration + fault.",
+                "on public material. TestC11Adapters drives the tss-lib adapters directly: unusable share data, a 50 ms key-generation deadline, "
+                "a digest tss-lib refuses with a context without deadline, an absent peer during Sign / KeyGen - each call must return an error, "
+                "neither panic nor block. Non-trivial = the fault actually removed a frame / hit a running call. Distinct = configuration + fault.",
         "exhaustive_claim": False,
         "exhaustive_parts": "per listed configuration and reference schedule the (peer,k) and single-withheld-frame spaces are enumerated completely; configurations and schedules are a finite sample",
         "assumptions": COMMON_ASSUME + ["a vanished peer is modelled as a node whose outgoing frames are dropped after the k-th"],
@@ -320,5 +323,23 @@ PROPS = {
                 "injected. Distinct = hash of the case.",
         "assumptions": COMMON_ASSUME + ["the Go race detector's happens-before analysis; a race needs both accesses to occur in the run: interleavings are sampled, not owned",
                                          "a race report whose two accesses both lie outside the repository is a harness race and is reported as inconclusive, never as a violation"],
+    },
+    "C19": {
+        "module": "binance", "pkg": "./checks", "level": "exploration",
+        "jobs": [
+            {"test": "TestC19EdDSA", "quick": 60, "thorough": 1500, "shards_thorough": 8},
+            {"test": "TestC19ECDSA", "quick": 30, "thorough": 400, "shards_thorough": 4, "timeout_thorough": 5400},
+            {"test": "TestC19Bind", "quick": 12, "thorough": 300, "shards_thorough": 4},
+        ],
+        "rule": "Live EdDSA key generation and signing for (n,t) in {(2,1),(3,2),(3,1),(4,3),(4,2),(5,3)}; ECDSA signing from committed key fixtures "
+                "((2,1),(3,2); captured key-generation frames included) in quick and live key generation in thorough; a direct dispatcher records "
+                "every emitted (bytes, routing flag, destination). Digests: 32 random bytes, leading zero byte(s), all-zero, all-0xFF, lengths 1..64. "
+                "Oracle: (a) ClassifyMsg(bytes) succeeds and its class equals the library's routing flag for EVERY emitted frame; (b) two "
+                "broadcast-class message types of one phase never share a round; (c) every returned signature verifies for the digest that was "
+                "passed in under ThresholdPK() (crypto/ed25519, crypto/ecdsa); a refusal is allowed. The clause about a message whose embedded "
+                "sender differs from the transport sender is vacuous for the pinned tss-lib v2.0.2 (wire bytes carry no sender); what is "
+                "checked instead (TestC19Bind, EdDSA key generation with one member absent): a genuine frame delivered under a transport sender "
+                "that is NOT a session member must not make the receiving party emit any message type it does not emit without that frame. Non-trivial = digest with a leading zero byte or of a length other than 32. Distinct = (scheme, n, t, digest).",
+        "assumptions": COMMON_ASSUME + ["bnb-chain/tss-lib v2.0.2 as pinned by the adapters' go.mod", "ECDSA key fixtures were produced by the adapters' own KeyGen (TestMakeFixtures)"],
     },
 }
